@@ -329,7 +329,17 @@ func (env *SpecEnv) field(x *SExpr) Value {
 	// package-qualified name?
 	if b := x.Args[0]; b.Kind == "ident" {
 		if _, isVar := env.vars[b.Name]; !isVar {
-			if p := e.prog.pkgByName(b.Name); p != nil {
+			p := e.prog.pkgByName(b.Name)
+			if env.pkg != nil {
+				// a package imported by the contract's own package takes precedence (crypto/rand vs math/rand)
+				for _, imp := range env.pkg.Imports() {
+					if imp.Name() == b.Name {
+						p = imp
+						break
+					}
+				}
+			}
+			if p != nil {
 				if env.goName != nil {
 					if _, shadow := env.goName(b.Name, env.state()); shadow {
 						goto notPkg
@@ -692,6 +702,10 @@ func (env *SpecEnv) call(x *SExpr) Value {
 			return mathInt(ml.Arr)
 		}
 		return mathInt(ml.Idx)
+	case "addr":
+		// addr(p.f): pointer to the field (for predicates that take a pointer)
+		loc, typ := e.modLoc(env, x.Args[0])
+		return PtrVal{Loc: loc, Typ: types.NewPointer(typ)}
 	case "mkslice":
 		// mkslice(arr, off, len): a []byte slice value from its components (cap = len)
 		a, o, l := env.evalInt(x.Args[0]), env.evalInt(x.Args[1]), env.evalInt(x.Args[2])
